@@ -32,8 +32,25 @@ def bad_events(I):
     return [e for e in I.events if e.kind in BAD and not e.in_log]
 
 
+MACHINE_LOAD = "L::machine::Machine::load"
+
+
 def run(ctx):
     from .. import wrappers
+    # the limits that are supervised are the limits the program states: Machine::load stores the stated stack size (never
+    # NOSET), the stated program size, or for AUTO the number of image bytes - the load clauses of C07's rule, shared.  A
+    # limit that load derives differently (bytes actually written, a size that skips trailing zeros) makes the machine
+    # error-stop at an address the program is entitled to reach.
+    from . import C07 as _C07
+    chk = ctx.chk
+    chk.prefix = "limits/"
+    chk.keep_only = lambda k: k.startswith(("load/limits/", "load/auto-programsize", "load/stacksize-never-notset",
+                                            "load/default-limits", "load/analysable"))
+    try:
+        _C07.run(ctx)
+    finally:
+        chk.prefix = ""
+        chk.keep_only = None
     wrappers.check(ctx, ["trigger_key_continue"])     # the outer Machine methods the callers use are the routines analysed below
     # the byte whose value decides a stop is the byte read from the bus by the fetch word (pipeline agreement, shared with C01)
     from .. import pipeline
@@ -305,9 +322,18 @@ def run(ctx):
                         want_taken = "else" if nm.endswith("ne") else 0
                         if taken == want_taken or (nm.endswith("ne") and taken != 0) or (nm.endswith("eq") and taken == 0):
                             guarded = True
-        chk.ob("set-stacksize-guarded/%s" % path, guarded,
-               "every call of RawMachine::set_stacksize is dominated by a test that the value is not NotSet",
-               "%s:%s" % (b.file, t["ln"]), "dominating conditions: %d" % len(conds))
+        by_value = False
+        if not guarded and path == MACHINE_LOAD:
+            # the guard may be written as a match on the variant instead of a comparison; for Machine::load the fact itself is
+            # decided by value above (limits/load/stacksize-never-notset and limits/load/limits/NotSet/*: for every directive
+            # value the stored limit is never NotSet), which is what this clause stands for
+            rel = [o for o in chk.obligations if o["key"].startswith(("C05/limits/load/stacksize-never-notset",
+                                                                      "C05/limits/load/limits/NotSet/"))]
+            by_value = len(rel) >= 4 and all(o["status"] == "discharged" for o in rel)
+        chk.ob("set-stacksize-guarded/%s" % path, guarded or by_value,
+               "every call of RawMachine::set_stacksize is dominated by a test that the value is not NotSet (a comparison; for "
+               "Machine::load also any other guard, decided by the value stored for every directive value)",
+               "%s:%s" % (b.file, t["ln"]), "dominating conditions: %d; decided by value: %s" % (len(conds), by_value))
     chk.assume("external callers of the public RawMachine::set_stacksize never pass Stacksize::NotSet "
                "(the property quantifies over the five stack sizes)")
     chk.sample({"stack size _16": "SP in [0x00,0xD0] valid, [0xD1,0xDE] error stop, [0xDF,0xEF] valid, [0xF0,0xFF] error stop"})
